@@ -18,12 +18,20 @@ rule = ("scripts = 'a handles n', a set-up (shared / immutable / no-copy / typed
         "set/insert/append/slice assignment/copy/assignment and typed_array<T>/unique_array<T> insert/set/resize/reserve/"
         "detach/trim/skip for uint8_t and a 12-byte POD, 6 set-ups (shared, three holders, private, full, large) x every "
         "op (lengths below/equal/above the current length and the capacity, positions front/middle/end/past-the-end/"
-        "negative), pairs of ops, random histories; array::set(const value &) for string/int32/double values; "
+        "negative), pairs of ops, random histories; array::set(const value &) for string/int32/double values and a character "
+        "array; array::set(convertable &) with sources offering a generic vector, a character vector, a string, no string, "
+        "nothing; array::printf; "
         "map<uint8_t,uint8_t> set/get of present and absent keys on private and shared maps (singles, all pairs, random); "
         "pointer_array<T> insert/set/swap (inside, at and outside the elements, negative)/compact/resize on private and "
         "shared arrays (singles, all pairs, random); mpt_buffer_insert called directly with positions up to SIZE_MAX; "
         "mpt_values_prepare (mptplot) with positive and negative counts on shared and unshared arrays of doubles; an "
-        "io::buffer over an array that consumes and compacts (encode_array::shift); third part (harness/drv_refs.c): raw "
+        "io::buffer over an array that consumes and compacts (encode_array::shift; what it still offers to its reader is "
+        "compared with the unconsumed rest); mpt_buffer_set with the buffer's own and with foreign element types (foreign: "
+        "must be refused). Refusals: for append/insert/set/cut the S column has no 'refused' alternative when "
+        "Spec/ArrayOps.lean mustSucceed holds (theorem must_succeed: empty handle or own writable buffer of the matching "
+        "type, arguments inside the data); the same for C++ insert/append, for trim/skip of whole elements on an unshared "
+        "buffer, for set(value) and for slice assignment inside the raw data of the source (these four without theorem); "
+        "slice_write of n > 0 blocks must write at least one; third part (harness/drv_refs.c): raw "
         "data stages — mpt_stage_data + mpt_values_prepare on an array of value_store elements through 3 handles (4 "
         "set-ups x 18 ops, all pairs, triples on the shared set-up, random), S = the nested value read through every "
         "handle is independent of the others. "
@@ -50,7 +58,7 @@ trusted = ["hand-written model MptModel/Impl/Heap.lean tied to mptcore/array/*.c
            "(mpt++/array.cpp is compiled into the driver with UBSan's vptr check off: the buffers are C objects with a hand-made vtable)",
            "harness reads the private refcount of buffer_alloc.c through its layout (internals section only)"]
 
-MUTATING = ("append", "insert", "set", "slice", "reserve", "cut", "bset", "printf", "swrite", "detach", "binsert", "string", "vprep")
+MUTATING = ("append", "insert", "set", "slice", "reserve", "cut", "bset", "bsetas", "printf", "swrite", "detach", "binsert", "string", "vprep")
 
 
 def corpus(chk):
@@ -65,6 +73,7 @@ SETUPS = {
     "imm-shared": ["a alloc h0 0 1 - 616263", "a clone h1 h0"],
     "nocopy-shared": ["a alloc h0 0 2 - 616263", "a clone h1 h0"],
     "p4-shared": ["a alloc h0 0 0 p4 6162636465666768", "a clone h1 h0"],
+    "p4-private": ["a alloc h0 0 0 p4 6162636465666768", "a alloc h1 0 0 c 7172"],
     "c-shared": ["a alloc h0 0 0 c 616263", "a clone h1 h0"],
     "full-shared": ["a alloc h0 64 0 - fill:64:30", "a clone h1 h0"],
     "c-full-shared": ["a alloc h0 64 0 c fill:64:30", "a clone h1 h0"],
@@ -85,7 +94,8 @@ def pool(h, o, level):
         ops.append("a insert %s %s 4243" % (h, p))
         if level == 2:
             ops.append("a insert %s %s fill:s:42" % (h, p))
-    for tr, d in (("p4", "44454647"), ("p4", "zero:4"), ("c", "44"), ("-", "44"), ("p1", "44"), ("z", "-"), ("p4", "4445")):
+    for tr, d in (("p4", "44454647"), ("p4", "zero:4"), ("c", "44"), ("-", "44"), ("p1", "44"), ("z", "-"), ("p4", "4445")) + \
+            ((("p4", "fill:64:41"),) if level == 2 else ()):
         for off in (["0", "1", "-1", "-9", "u"] if level == 2 or tr == "p4" else ["0", "-1"]):
             ops.append("a set %s %s %s %s" % (h, tr, off, d))
     for off in (OPNDS if level == 2 else ["0", "u", "u+1", "s"]):
@@ -104,6 +114,10 @@ def pool(h, o, level):
     for p in (["0", "1", "u", "u+3", "s", "s+1"] if level == 2 else ["0", "u", "u+3", "s"]):
         for d in ("41", "zero:2", "41424344"):
             ops.append("a bset %s %s %s" % (h, p, d))
+    # mpt_buffer_set with the buffer's own, a compatible-looking or a foreign element type
+    for tr, p, d in ((("p4", "0", "41424344"), ("p4", "u", "41424344"), ("p4", "1", "41424344"), ("-", "u", "41"), ("c", "0", "41"),
+                      ("p1", "1", "4142"), ("c", "u+2", "41"), ("-", "0", "zero:2")) if level == 2 else (("p4", "0", "41424344"), ("-", "u", "41"))):
+        ops.append("a bsetas %s %s %s %s" % (h, tr, p, d))
     for d in ("41", "-", "fill:63:41", "fill:64:41", "fill:65:41", "fill:s:41"):
         ops.append("a printf %s %s" % (h, d))
     if level == 2:
@@ -323,6 +337,12 @@ class _XX:
         ops += ["x setv %s s fill:5:41" % h, "x setv %s s -" % h, "x setv %s i 01020304" % h, "x setv %s d 0102030405060708" % h]
         if level:
             ops += ["x setv %s s fill:63:41" % h, "x setv %s s fill:64:41" % h, "x setv %s s fill:200:41" % h]
+            # a character array as value (terminated if it is not); array::set(convertable &): the source offers a generic
+            # vector, a character vector, a string, "no string", or nothing
+            ops += ["x setv %s a 414243" % h, "x setv %s a 41424300" % h, "x setv %s a -" % h, "x setv %s a fill:64:41" % h]
+            ops += ["x printf %s 4142" % h, "x printf %s fill:70:41" % h, "x printf %s -" % h]
+            ops += ["x setc %s v 414243" % h, "x setc %s c fill:70:41" % h, "x setc %s v -" % h, "x setc %s s 6162" % h, "x setc %s s -" % h,
+                    "x setc %s s fill:64:61" % h, "x setc %s z 61" % h, "x setc %s e 61" % h]
         ops += ["x clone %s %s" % (h, o), "x copy %s %s" % (h, o), "x drop %s" % h]
         return ops
 
@@ -563,7 +583,7 @@ class _Stage:
         return "stage:%s:%s" % (res["kind"], op[1] if len(op) > 1 else "?")
 
 
-XMUT = ("set", "insert", "append", "setslice", "resize", "reserve", "detach", "trim", "skip", "setv", "mset", "swap", "compact")
+XMUT = ("set", "insert", "append", "setslice", "resize", "reserve", "detach", "trim", "skip", "setv", "setc", "printf", "mset", "swap", "compact")
 
 
 def _xx_nontrivial(script, c_lines):
